@@ -3202,14 +3202,15 @@ fn hexes_i(v: &[i64]) -> String {
     format!("[{}{}]", s.join(","), if v.len() > 12 { format!(",..{} more", v.len() - 12) } else { String::new() })
 }
 
-const TRAILERS: [&[u8]; 6] = [&[], &[0x00], &[0x80, 0x80], &[0xFF, 0xFF, 0x01], &[0x7F], &[0x80; 40]];
+/// (the last two: a following batch of forty one-byte values, and one that starts with them)
+const TRAILERS: [&[u8]; 8] = [&[], &[0x00], &[0x80, 0x80], &[0xFF, 0xFF, 0x01], &[0x7F], &[0x80; 40], &[0x05; 40], &[0x01, 0x02, 0x03, 0x04, 0x05, 0x06, 0x07, 0x08, 0x09, 0x0A, 0x0B, 0x0C, 0x0D, 0x0E, 0x0F, 0x10, 0x11, 0x12, 0x13, 0x14, 0x15, 0x16, 0x17, 0x18, 0x19, 0x1A, 0x1B, 0x1C, 0x1D, 0x1E, 0x1F, 0x20, 0x21, 0x22, 0x23, 0x24, 0xFF, 0xFF, 0xFF, 0x01]];
 
 fn codec_var_int(cx: &mut Run) {
     let cfg = cx.src.chan("cfg");
     let width = *cfg.pick(&WIDTHS);
     let signed = cfg.below(2) == 1;
     let shape = cfg.below(6) as usize;
-    let trailer = TRAILERS[cfg.below(6) as usize];
+    let trailer = TRAILERS[cfg.below(8) as usize];
     let planned = *cfg.pick(&[1u64, 2, 3, 5, 8, 12]);
     let ops = take_ops(cx, "ops", planned);
     let vals = rel_seq(&ops, width, shape);
@@ -3349,7 +3350,7 @@ fn codec_simd_varint(cx: &mut Run) {
     let cfg = cx.src.chan("cfg");
     let width = *cfg.pick(&WIDTHS);
     let shape = cfg.below(6) as usize;
-    let trailer = TRAILERS[cfg.below(6) as usize];
+    let trailer = TRAILERS[cfg.below(8) as usize];
     // around SIMD_BATCH_THRESHOLD (4) and around the 32 input bytes the AVX2 decoder asks for
     let planned = *cfg.pick(&[0u64, 1, 3, 4, 5, 8, 15, 16, 17, 31, 32, 33, 40]);
     let global = cfg.below(2) == 1;
@@ -3452,7 +3453,7 @@ fn codec_strategy_single(cx: &mut Run) {
     let signed = cfg.below(2) == 1;
     let width = *cfg.pick(&WIDTHS);
     let shape = cfg.below(6) as usize;
-    let trailer = TRAILERS[cfg.below(6) as usize];
+    let trailer = TRAILERS[cfg.below(8) as usize];
     let enc = make_encoder(st, cfg.below(2) == 1);
     let planned = *cfg.pick(&[1u64, 2, 3, 5, 8, 12]);
     let ops = take_ops(cx, "ops", planned);
